@@ -178,6 +178,13 @@ STAKED_MODELS = [
 ]
 
 
+# borrowing against venue-backed collateral (VenueRisk.tla): venues falling behind / refreshed / accruing, feed moves, borrow boundaries by bisection
+VENUERISK_MODELS = [
+    {"name": "venuerisk", "module": "MC_VenueRisk.tla", "cfg": {"quick": "MC_VenueRiskQuick.cfg", "thorough": "MC_VenueRiskThorough.cfg"},
+     "setup": "setups/venuerisk.json", "init_from_setup": True, "timeout": {"quick": 900, "thorough": 10000}},
+]
+
+
 def risk_prop2(ops, drivers, models=(), minnt=30):
     return {
         "models": list(models),
@@ -260,7 +267,7 @@ def integ_nontrivial(e):
 
 
 PROPS = {
-    "C20": {"models": [{"name": "integ", "module": "Integ.tla", "cfg": "MC_Integ.cfg", "setup": "setups/empty.json"}] + VENUE_MODELS,
+    "C20": {"models": [{"name": "integ", "module": "Integ.tla", "cfg": "MC_Integ.cfg", "setup": "setups/empty.json"}] + VENUE_MODELS + VENUERISK_MODELS,
             "drivers": [{"name": "integ", "args": {"quick": [20000], "thorough": [2000000]}}] + KAMINO_DRIVERS,
             "nontrivial": integ_nontrivial,
             "rule": "each operand tuple passed to a real conversion function is one evaluation, so is every instruction executed on a world with venue-backed banks (the staleness rule is judged on what the program decides); all are non-trivial; distinct by (function, operands) / (instruction, result, error)",
@@ -288,10 +295,10 @@ PROPS = {
         "rule": "each matrix cell (instruction x variant: unmodified, signer identity, missing signature, slot x foreign object; normal and frozen account; every role-gated instruction x identity after every re-assignment of a group role) executed through marginfi::entry is one evaluation, so is every role assignment and every instruction executed with a substituted price account; all are non-trivial; distinct by (cell, variant, identity, substitution, mode, result)",
         "min_nontrivial": 500,
     },
-    "C04": dict(risk_prop(["borrow", "withdraw", "kamino_withdraw", "drift_withdraw", "solend_withdraw", "tx"]), models=RISK_MODELS + RISKCFG_MODELS + STAKED_MODELS, drivers=RISK_DRIVERS + LEDGER_DRIVERS + STAKED_DRIVERS + KAMINO_DRIVERS + EDGE_DRIVERS),
+    "C04": dict(risk_prop(["borrow", "withdraw", "kamino_withdraw", "drift_withdraw", "solend_withdraw", "tx"]), models=RISK_MODELS + RISKCFG_MODELS + STAKED_MODELS + VENUERISK_MODELS, drivers=RISK_DRIVERS + LEDGER_DRIVERS + STAKED_DRIVERS + KAMINO_DRIVERS + EDGE_DRIVERS),
     "C05": risk_prop2(["liquidate"], LIQ_DRIVERS + LEDGER_DRIVERS + STAKED_DRIVERS + EDGE_DRIVERS, models=RISK_MODELS + RISKCFG_MODELS + LIQ_MODELS + STAKED_MODELS),
     "C07": risk_prop2(["bankruptcy"], LIQ_DRIVERS + LEDGER_DRIVERS + EDGE_DRIVERS, models=RISK_MODELS + BKR_MODELS),
-    "C09": risk_prop2(["borrow", "withdraw", "liquidate", "bankruptcy", "pulse_health"], LIQ_DRIVERS + RISK_DRIVERS + LEDGER_DRIVERS + STAKED_DRIVERS + KAMINO_DRIVERS + EDGE_DRIVERS, models=RISK_MODELS + ORACLE_MODELS + RISKCFG_MODELS + STAKED_MODELS),
+    "C09": risk_prop2(["borrow", "withdraw", "liquidate", "bankruptcy", "pulse_health"], LIQ_DRIVERS + RISK_DRIVERS + LEDGER_DRIVERS + STAKED_DRIVERS + KAMINO_DRIVERS + EDGE_DRIVERS, models=RISK_MODELS + ORACLE_MODELS + RISKCFG_MODELS + STAKED_MODELS + VENUERISK_MODELS),
     "C13": risk_prop2(["add_bank", "add_bank_staked", "add_bank_kamino", "add_bank_drift", "add_bank_solend", "init_staked_settings", "edit_staked_settings", "propagate_staked", "configure_bank", "configure_emode", "borrow", "withdraw", "pulse_health", "bankruptcy", "clone_emode"],
                       LIQ_DRIVERS + RISK_DRIVERS + ADMIN_DRIVERS + STAKED_DRIVERS + KAMINO_DRIVERS + EDGE_DRIVERS, models=RISK_MODELS + CONFIG_MODELS + RISKCFG_MODELS + STAKED_MODELS),
     "C14": risk_prop2(["deposit", "withdraw", "borrow", "repay", "liquidate", "bankruptcy", "propagate_fee"], LIQ_DRIVERS + RISK_DRIVERS + EDGE_DRIVERS, models=GATE_MODELS),
